@@ -64,6 +64,7 @@ FAULTS = {
     "set_initial_param": (["param", "param_bspline"], [0, 1, 2], True),
     "set_initial_unknown": (["param", "param_bspline"], [0], True),
     "grid_subject_to": (["chain"], [0], True),
+    "grid_subject_to_point": (["chain"], [0, 1], True),
     "grid_sample": (["chain"], [0], True),
     "grid_sol_sample": (["chain"], [0], False),
     "foreign_rhs": (["chain", "chain3"], [0, 1], False),
@@ -186,6 +187,9 @@ def late_fault(ocp, st, S, fault, pos, sol=None):
         st.set_initial(ca.MX.sym("nobody"), 1.0)
     elif fault == "grid_subject_to":
         st.subject_to(x0 <= 3, grid="controls")
+    elif fault == "grid_subject_to_point":
+        # unknown grid name on a boundary (non-signal) constraint
+        st.subject_to((st.at_t0(x0) if pos == 0 else st.at_tf(x0)) <= 3, grid="bogus")
     elif fault == "grid_sample":
         st.sample(x0, grid="controls")
     elif fault == "foreign_constraint":
@@ -249,12 +253,24 @@ def scenario(base, method, fault, pos, after):
             Block.armed = True
             sol.sample(S["x"][0], grid="controls")
             return ("silent",)
+        stage_solve = True
         ocp.solve()
     except SolverCalled:
         return ("solver_called",)
     except Exception as e:
         import sys
-        return ("raised", core.rockit_frame(sys.exc_info()[2]) or type(e).__name__, type(e).__name__, str(e)[:160])
+        first = ("raised", core.rockit_frame(sys.exc_info()[2]) or type(e).__name__, type(e).__name__, str(e)[:160])
+        # a retry on the same object (try/except loop, re-run notebook cell) must not hand an NLP to the solver either
+        if fault is not None and locals().get("stage_solve"):
+            try:
+                Block.armed = True
+                ocp.solve()
+                return ("silent_on_retry",)
+            except SolverCalled:
+                return ("solver_called_on_retry",)
+            except Exception:
+                pass
+        return first
     return ("silent",)
 
 
@@ -306,6 +322,8 @@ def run_case(case):
             vios.append(dict(sig="accepted:%s" % case["fault"], tags=tags, detail="an NLP was handed to the solver although the specification is ill-posed"))
         elif r[0] == "silent":
             vios.append(dict(sig="silent:%s" % case["fault"], tags=tags, detail="no exception by solve time"))
+        elif r[0] in ("solver_called_on_retry", "silent_on_retry"):
+            vios.append(dict(sig="accepted-on-retry:%s" % case["fault"], tags=tags, detail="the first solve raised, a second solve on the same object %s" % ("handed an NLP to the solver" if r[0].startswith("solver") else "returned silently")))
     return dict(violations=vios, evaluations=1, traces=1, transitions=2, outcome=explore.sha([case["fault"], r[0], r[1] if len(r) > 1 else None, r[2] if len(r) > 2 else None, case["method"], case["base"]]),
                 nontrivial=True, counts={("raised" if r[0] == "raised" else r[0]): 1},
                 sample=dict(case=case, result=list(r)[:3]))
@@ -313,6 +331,6 @@ def run_case(case):
 
 def describe(tier):
     return dict(
-        rule="fault enumeration: %d fault kinds x applicable base programs (2- and 3-state integrator chains, parametric OCP with global/per-interval parameters and a variable, two-stage OCP, discrete-time model) x fault position x 5 method configurations (MS, MS expl_euler M=2, SS, DC, SplineMethod) x {before, after a first successful transcription and solve}; oracle: an exception by the faulty call or at the latest by ocp.solve(), with zero calls reaching casadi.Opti.solve/solve_limited (blocking spy); every base x method has a fault-free twin that must reach the solver" % len(FAULTS),
+        rule="fault enumeration (each rejected solve is retried once on the same object): %d fault kinds x applicable base programs (2- and 3-state integrator chains, parametric OCP with global/per-interval parameters and a variable, two-stage OCP, discrete-time model) x fault position x 5 method configurations (MS, MS expl_euler M=2, SS, DC, SplineMethod) x {before, after a first successful transcription and solve}; oracle: an exception by the faulty call or at the latest by ocp.solve(), with zero calls reaching casadi.Opti.solve/solve_limited (blocking spy); every base x method has a fault-free twin that must reach the solver" % len(FAULTS),
         bound="single faults; all positions of the bases",
         assumptions=["a blocking spy at casadi.Opti.solve/solve_limited detects 'an NLP is handed to the solver'", "SplineMethod cases need the networkx wheel; without it they are not run"])
